@@ -232,7 +232,8 @@ def g_layer(spec, r):
         yield "layer:" + "/".join(l["name"] for l in rec["layers"]), rec["data"], None
 
 
-CTX_WRAPS = [(b"cmd /c start ", b""), (b"CreateObject(", b")"), (b"x 'powershell iwr ", b"'"), (b"(cmd /c echo ", b") zz"),
+CTX_WRAPS = [(b"http://files.example.com/get?d=", b""), (b"ftp://10.1.2.3/pub/", b" zz"), (b"see https://example.org/a#", b" zz"),
+             (b"cmd /c start ",  b""), (b"CreateObject(", b")"), (b"x 'powershell iwr ", b"'"), (b"(cmd /c echo ", b") zz"),
              (b"createobject(createobject( ", b" ))"), (b"\"powershell -c ", b"\""), (b"cmd /c echo admin@", b""),
              (b"", b"")]
 
@@ -253,7 +254,17 @@ def decodable_with_inner(r) -> bytes:
     if k == 4:
         return b"unescape('%68ttp://" + ip + b"/" + netgen.label(r) + b".dll')"
     if k == 5:
-        return base64.b64encode(b"connect to " + dom + b" and " + ip + b" now please")
+        inner = b"connect to " + dom + b" and " + ip + b" now please"
+        x = r.random()
+        if x < 0.3:
+            # two layers without a single character a URL / path / command line would not accept
+            return r.choice([base64.b64encode(b"text " + base64.b64encode(inner) + b" end").hex().encode(),
+                             base64.b64encode(b"hex " + inner.hex().encode() + b" end")])
+        if x < 0.45:
+            # a key stated in the outer text only must not leak into what is decoded from it
+            conv = r.choice([b"FromBase64String('" + base64.b64encode(inner) + b"')", b"FromHexString('" + inner.hex().encode() + b"')"])
+            return base64.b64encode(b"run " + conv + b" now") + b" -bxor " + str(r.randint(1, 255)).encode()
+        return base64.b64encode(inner)
     if k == 6:
         return b"reverse('" + (b"visit " + dom)[::-1] + b"') " + dom[::-1]
     return b"C:\\Users\\.\\" + netgen.label(r) + b"\\..\\" + netgen.exe_name(r)
@@ -316,11 +327,21 @@ RU_COUNTS = [8, 16, 24, 28, 32, 48, 64, 200, 800]
 RU_PREFIX = [b"", b'"', b"'", b"http://", b"cmd /c ", b"powershell ", b"x@", b'"a" + "', b"unescape('", b"\\\\", b"reverse(\"", b"CreateObject(",
              b"atob(\"", b"'a' -replace '"]
 RU_SUFFIX = [b"", b'"', b"'", b")", b" x", b"\")", b".com"]
+# numeric fields whose pattern puts no bound on leading zeros / digits (beyond the interpreter's 4300 digit int() limit)
+RU_LONG = [(b"chr(", b"0", b"65)"), (b"ChrW(", b"0", b"1)"), (b"1.2.3.", b"0", b"4"), (b"0x", b"0", b"7f.1.1.1"), (b"1.2.0x", b"0", b"1.4"),
+           (b"http://", b"0", b"1.1.1.1/a"), (b"\\\\", b"0", b"7.1.1.1\\share\\file.txt"), (b"&#", b"0", b"65;&#66;&#67;&#68;&#69;"),
+           (b"-bxor ", b"0", b"35 FromBase64String('QUJDRA==')"), (b"http://example.com:", b"0", b"80/"), (b"x@", b"9", b".com"),
+           (b"chr(", b"9", b")"), (b"", b"12345678", b"."), (b"0x41,", b"0", b"65," * 501)]
+RU_LONG_COUNTS = [4299, 4300, 4301, 5000, 70000]
 
 
 def g_repeatunit(spec, r):
     """Regex stress: a unit repeated n times between trigger prefixes / suffixes (catastrophic backtracking shows as a hang)."""
     idx = 0
+    if spec.get("shard", 0) == 0:
+        for pre, unit, suf in RU_LONG:
+            for n in RU_LONG_COUNTS:
+                yield "repeatunit", pre + unit * n + suf, None
     for unit in RU_UNITS:
         for pre in RU_PREFIX:
             for suf in RU_SUFFIX:
@@ -418,9 +439,42 @@ def g_bom(spec, r):
         yield "bom", bom + text.encode(codec) + r.choice([b"", b"\x00"]), r.choice([-1, 0, 0, 1, 2, None])
 
 
+UNICASE = ["\u0130", "\u023a", "\u023e", "\u212a", "\u00df", "\u017f", "\u01c5", "\ufb01", "\u03a3", "\u1e9e", "\u0149", "\u2126", "\u00b5"]
+_SHIPPED_KW: list[bytes] = []
+
+
+def shipped_keywords():
+    """Some bundled keywords (read from the repository under test: inputs, not expectations)."""
+    if not _SHIPPED_KW:
+        import os
+        import multidecoder
+        d = os.path.join(os.path.dirname(multidecoder.__file__), "keywords")
+        for root_, _, files in sorted(os.walk(d)):
+            for fn in sorted(files):
+                with open(os.path.join(root_, fn), "rb") as f:
+                    words = [w for w in f.read().splitlines() if 3 <= len(w) <= 40]
+                _SHIPPED_KW.extend(words[:: max(1, len(words) // 6)][:6])
+    return _SHIPPED_KW or [b"strlen"]
+
+
+def g_unicase(spec, r):
+    """Text whose letters change their byte length under Unicode case mapping (dotted capital I, Kelvin sign, sharp s,
+    ligatures ...) around bundled keywords, keyword last with no trailing newline: offsets computed on a re-cased copy of
+    the text no longer fit the bytes."""
+    kws = shipped_keywords()
+    while True:
+        n = r.choice([1, 2, 5, 40, 300])
+        letters = "".join(r.choice(UNICASE) for _ in range(n)).encode("utf-8")
+        kw = r.choice(kws)
+        kw = kw if r.random() < 0.6 else kw.swapcase()
+        mid = r.choice([b" ", b"\n", b" text ", b"; "])
+        tail = r.choice([b"", b"", b" ", b"\n", b" " + r.choice(kws)])
+        yield "unicase", r.choice([b"", b"x "]) + letters + mid + kw + tail, None
+
+
 GENERATORS = {
     "skel": g_skel, "xor": g_xor, "cmd": g_cmd, "pe": g_pe, "xorbytes": g_xorbytes, "matryoshka": g_matryoshka,
-    "nesting": g_nesting, "seedmut": g_seedmut, "soup": g_soup, "large": g_large, "repeat": g_repeat, "url": g_url, "ioc": g_ioc, "layer": g_layer, "ctxdec": g_ctxdec, "nest": g_nest, "plainnest": g_plainnest, "repeatunit": g_repeatunit, "echo": g_echo, "expand": g_expand, "overlap": g_overlap, "twopaths": g_twopaths, "bom": g_bom,
+    "nesting": g_nesting, "seedmut": g_seedmut, "soup": g_soup, "large": g_large, "repeat": g_repeat, "url": g_url, "ioc": g_ioc, "layer": g_layer, "ctxdec": g_ctxdec, "nest": g_nest, "plainnest": g_plainnest, "repeatunit": g_repeatunit, "echo": g_echo, "expand": g_expand, "overlap": g_overlap, "twopaths": g_twopaths, "bom": g_bom, "unicase": g_unicase,
 }
 
 
